@@ -414,7 +414,7 @@ func CheckC10(t Target, src *choice.Src, st *Stats) *Violation {
 		st.Samples = append(st.Samples, map[string]any{"class": w.Class, "patterns": w.Patterns, "files": fileNames(w), "out": w.Out, "out_kind": w.OutKind,
 			"pre_existing_out": w.PreOut != nil, "flags": w.Flags, "fault_free_exit": ref.Exit, "fault_free_ops": ops, "single_faults_enumerated": len(sweep), "first_faults": firstFaults(sweep, 6)})
 	}
-	for _, f := range sweep {
+	for fi, f := range sweep {
 		fw := w.Clone()
 		fw.Faults = []simrt.Fault{f}
 		fr := Exec(t, fw)
@@ -429,6 +429,19 @@ func CheckC10(t Target, src *choice.Src, st *Stats) *Violation {
 		}
 		if c, d := judgeFaulted(t, w, ref, fw, fr, st); c != "" {
 			return c10Violation(fmt.Sprintf("%s:%s:%s", f.OpKind, f.Kind, c), fmt.Sprintf("fault %+v on op %d (%s %s)\n%s\n%s", f, f.At, ref.Ops[f.At].Kind, ref.Ops[f.At].Path, d, tail(fr.Stdout, 10)), w, fw)
+		}
+		// --quiet must not change status or file effects under faults either (every 5th fault of the sweep)
+		if fi%5 == 0 && f.OpKind != "corrupt" {
+			qf := qw.Clone()
+			qf.Faults = []simrt.Fault{f}
+			qfr := Exec(t, qf)
+			if st != nil {
+				st.note(qf, qfr)
+				st.Probes["quiet-twins-under-a-fault"]++
+			}
+			if len(qfr.Fired) > 0 && (qfr.Exit != fr.Exit || !qfr.Out.Same(fr.Out)) {
+				return c10Violation(fmt.Sprintf("%s:%s:quiet-changes-outcome", f.OpKind, f.Kind), fmt.Sprintf("with fault %+v toggling --quiet changed exit status or file effects\n%s", f, explain(fr, qfr)), w, fw, qf)
+			}
 		}
 		// second order: operations that exist only because this fault fired (a fallback path, a
 		// clean-up) get the complete fault treatment as well
@@ -541,6 +554,13 @@ func replayC10(t Target, v *Violation) (string, string) {
 		g = &o
 	}
 	parts := strings.SplitN(v.Sig, ":", 3)
+	if strings.HasSuffix(v.Sig, ":quiet-changes-outcome") && parts[0] != "nofault" && len(v.Worlds) == 3 {
+		fr, qfr := Exec(t, v.Worlds[1]), Exec(t, v.Worlds[2])
+		if qfr.Exit != fr.Exit || !qfr.Out.Same(fr.Out) {
+			return v.Sig, explain(fr, qfr)
+		}
+		return "", ""
+	}
 	if parts[0] == "nofault" {
 		if len(v.Worlds) == 2 && strings.HasPrefix(v.Sig, "nofault:quiet-changes-outcome") {
 			qr := Exec(t, v.Worlds[1])
